@@ -435,6 +435,17 @@ func bvCmp(op string, a, b *Term) *Term {
 	if a == b {
 		return BoolC(op[3:] == "le")
 	}
+	// x % c < d is true whenever c <= d (c > 0): spares the solver a divider
+	if op[2] == 'u' && a.Op == "bvurem" && a.Args[1].IsConst() && a.Args[1].C.Sign() > 0 && b.IsConst() {
+		c := a.Args[1].C.Cmp(b.C)
+		if (op == "bvult" && c <= 0) || (op == "bvule" && new(big.Int).Sub(a.Args[1].C, one).Cmp(b.C) <= 0) {
+			return TTrue
+		}
+	}
+	// zero-extended narrow value against a constant beyond its range
+	if op[2] == 'u' && a.Op == "zext" && b.IsConst() && b.C.BitLen() > a.Args[0].S.W {
+		return TTrue
+	}
 	return newTerm(op, SBool, a, b)
 }
 func BVUlt(a, b *Term) *Term { return bvCmp("bvult", a, b) }
